@@ -265,7 +265,9 @@ func NewCompressedPackedForwardMessageFromBytes(
 		return nil, err
 	}
 
-	pfm := NewPackedForwardMessageFromBytes(tag, mc.Bytes())
+	// mc goes back to the pool and will be overwritten by the next caller:
+	// the message gets a copy, not a view of the compressor's buffer
+	pfm := NewPackedForwardMessageFromBytes(tag, append([]byte(nil), mc.Bytes()...))
 	pfm.Options = &MessageOptions{Compressed: "gzip"}
 
 	return pfm, nil
